@@ -22,7 +22,7 @@ ASSUMPTIONS = ['helmert_exact rational evaluation (self-validated against mpmath
 N = {'quick': 1800, 'thorough': 30000}
 SHARDS = {'quick': 16, 'thorough': 32}
 REQUIRED_COUNTERS = ['first_call_of_process_with_int_coordinates', 'kept_results_compared_after_later_calls', 'unjudged_calls_before_a_judged_one', 'same_label_sequences', 'shipped_sets_calls', 'random_sets_calls', 'vcv_judged', 'vcv_none_judged', 'roundtrip_judged']
-VCV_KINDS = ['none', 'spd', 'rank1', 'rank2', 'zero', 'diag', 'cond1e8', 'whole']
+VCV_KINDS = ['none', 'spd', 'rank1', 'rank2', 'zero', 'diag', 'cond1e8', 'whole', 'bigrank', 'tiny', 'range', 'tied']
 
 
 def plan(tier, seed):
@@ -83,6 +83,42 @@ def rand_vcv(rnd, kind):
         # whole-number entries (a caller's np.eye(3), np.diag([4, 9, 1]) ...): representable in an integer dtype
         A = rs.randint(-3, 4, (3, 3)).astype(float)
         V = rnd.choice([A @ A.T, np.eye(3), np.diag(rs.randint(0, 10, 3).astype(float))])
+    elif kind == 'bigrank':
+        # exactly positive semi-definite, rank-deficient and large: integer vectors, so that u u^T (and the sum of two) is
+        # exact in binary floating point, times a power of ten up to 1e12 (a loosely constrained direction; a matrix in mm^2)
+        U = rs.randint(-12, 13, (3, rnd.choice([1, 1, 2]))).astype(float)
+        if not U.any():
+            U[0, 0] = 3.0
+        V = (U @ U.T) * 10.0 ** rnd.choice([0, 3, 6, 9, 12])
+    elif kind == 'tiny':
+        # the same structures at very small magnitude (a covariance in km^2, a sub-micrometre solution)
+        V = rand_vcv(rnd, rnd.choice(['spd', 'rank1', 'rank2', 'diag', 'cond1e8'])) * 10.0 ** rnd.choice([-14, -12, -10, -9, -8, -6])
+    elif kind == 'range':
+        # wide range inside one matrix: V = S C S with a well-conditioned correlation-like C and sigmas that differ by up
+        # to 1e6 (an unconstrained height beside mm-level horizontals, a bench mark with 20 m horizontal sigmas)
+        A = rs.randn(3, 3)
+        Cm = A @ A.T + 0.5 * np.eye(3)
+        d = np.sqrt(np.diag(Cm))
+        Cm = Cm / np.outer(d, d)
+        if rnd.random() < 0.4:
+            Cm = np.eye(3)
+        sig = [10.0 ** rnd.uniform(-3.5, -2)] * 3
+        big = 10.0 ** rnd.uniform(0.7, 3)
+        for ax in rnd.sample(range(3), rnd.choice([1, 1, 2])):
+            sig[ax] = big * rnd.uniform(0.5, 1.0)
+        S = np.diag(sig)
+        V = S @ Cm @ S
+    elif kind == 'tied':
+        # perfectly correlated components: singular although no row is zero (the variance is along one direction)
+        s = [10.0 ** rnd.uniform(-3, -1) for _ in range(3)]
+        sg = [rnd.choice([-1.0, 1.0]) for _ in range(3)]
+        g = np.array([[s[i] * sg[i]] for i in range(3)])
+        V = g @ g.T
+        if rnd.random() < 0.5:
+            ax = rnd.randrange(3)
+            V[ax, :] = 0.0
+            V[:, ax] = 0.0
+            V[ax, ax] = 10.0 ** rnd.uniform(-6, -2)
     else:
         Q, _ = np.linalg.qr(rs.randn(3, 3))
         V = Q @ np.diag([1e-2, 1e-6, 1e-10]) @ Q.T
